@@ -4,19 +4,158 @@ From C10 Require Import Generated Model Spec Proofs.
 Import ListNotations.
 Open Scope Z_scope.
 
-(* the flags the translator read from klongpy/types.py and klongpy/parser.py at this run *)
+(* the flags the translator read from klongpy/types.py, backends/numpy_backend.py and parser.py at this run *)
 Definition src_flags : flags := mkFlags kgsym_eq_guard kgchar_eq_guard literal_deepcopy.
 
 (* T10.refine — for EVERY operation sequence (any length, any number of dictionaries,
-   names and aliases, any operands) every observable result of the Python-like model
-   equals the result of the same sequence run over abstract finite maps: values and
-   errors are equal, Each's visit list is a permutation of the map's bindings, and the
-   final heaps are related dictionary by dictionary. *)
+   names, aliases and functions holding a literal, any operands) every observable result of
+   the Python-like dictionary model equals the result of the same sequence over abstract
+   finite maps keyed by key class: values, :undefined for a missing key and errors are
+   equal, sizes are equal, Each's visit list is a permutation of the map's bindings
+   (each argument being the tuple of a key of the class and the payload), and the final
+   heaps are related dictionary by dictionary. *)
 Theorem C10_refine : forall ops,
   state_ref (fst (model_run src_flags ops)) (fst (spec_run ops)) /\
   Forall2 obs_ref (snd (model_run src_flags ops)) (snd (spec_run ops)).
 Proof.
-  exact (fun ops => refine src_flags ops
+  exact (fun ops => refine_shaped dict_ops_shape_ok (eq_refl : dict_ops_shape_ok = true) src_flags ops
      (eq_refl : kgsym_eq_guard = true) (eq_refl : kgchar_eq_guard = true) (eq_refl : literal_deepcopy = true)).
 Qed.
 Print Assumptions C10_refine.
+
+(* The specification really is a finite map: lookup after insert / delete, other keys
+   unaffected, size = number of distinct keys, well-formedness preserved, every binding
+   listed exactly once. *)
+Theorem C10_spec_is_finite_map :
+  (forall k, fm_lookup k [] = None) /\
+  (forall k v m, fm_lookup k (fm_insert k v m) = Some v) /\
+  (forall k k' v m, k <> k' -> fm_lookup k' (fm_insert k v m) = fm_lookup k' m) /\
+  (forall k m, fm_lookup k (fm_delete k m) = None) /\
+  (forall k k' m, k <> k' -> fm_lookup k' (fm_delete k m) = fm_lookup k' m) /\
+  (forall k v m, fm_wf m -> fm_wf (fm_insert k v m) /\ fm_wf (fm_delete k m)) /\
+  (forall k v m, fm_wf m -> fm_size (fm_insert k v m) = if fm_mem k m then fm_size m else S (fm_size m)) /\
+  (forall k v m, fm_wf m -> fm_lookup k m = Some v -> S (fm_size (fm_delete k m)) = fm_size m) /\
+  (forall k v m, fm_wf m -> (fm_lookup k m = Some v <-> In (k, v) m)) /\
+  (forall k v m, fm_wf m -> fm_lookup k m = Some v ->
+     exists l1 l2, m = l1 ++ (k, v) :: l2 /\ ~ In k (map fst l1) /\ ~ In k (map fst l2)).
+Proof.
+  exact (conj fm_lookup_empty (conj fm_lookup_insert_same (conj fm_lookup_insert_other (conj fm_lookup_delete_same
+        (conj fm_lookup_delete_other (conj (fun k v m H => conj (fm_insert_wf k v m H) (fm_delete_wf k m H))
+        (conj fm_size_insert (conj fm_size_delete_present (conj fm_lookup_in fm_items_once))))))))).
+Qed.
+Print Assumptions C10_spec_is_finite_map.
+
+(* every specification dictionary reached by any sequence is well formed (distinct key classes) *)
+Theorem C10_spec_reaches_wf_maps : forall ops, Forall fm_wf (heap (fst (spec_run ops))).
+Proof. exact (fun ops => spec_run_wf spec_flags ops init_state (Forall_nil _)). Qed.
+Print Assumptions C10_spec_reaches_wf_maps.
+
+(* T10.alias — two names bound to the same dictionary are interchangeable as operands of
+   every operation, in every state ... *)
+Theorem C10_alias_same : forall (st : state dict) n m o,
+  lookup (env st) n = lookup (env st) m ->
+  step (model_impl src_flags) src_flags (rename_op n m o) st = step (model_impl src_flags) src_flags o st.
+Proof. exact (fun st n m o => alias_same dict val (model_impl src_flags) src_flags st n m o). Qed.
+Print Assumptions C10_alias_same.
+
+(* ... n::m makes them so, without creating a dictionary ... *)
+Theorem C10_alias_binds : forall (st : state dict) n m v,
+  lookup (env st) m = Some v ->
+  let st' := fst (step (model_impl src_flags) src_flags (OAlias n m) st) in
+  lookup (env st') n = Some v /\ lookup (env st') m = Some v /\ heap st' = heap st.
+Proof. exact (fun st n m v => alias_binds dict val (model_impl src_flags) src_flags st n m v). Qed.
+Print Assumptions C10_alias_binds.
+
+(* ... and an update through one name is read back through the other. *)
+Theorem C10_alias_update_visible : forall st n m l d k v,
+  lookup (env st) n = Some (VRef l) -> lookup (env st) m = Some (VRef l) ->
+  nth_error (heap st) l = Some d -> hashable k = true ->
+  let st' := fst (step (model_impl src_flags) src_flags (OJoinL (AVar n) (ALit (VList [k; v]))) st) in
+  snd (step (model_impl src_flags) src_flags (OFind (AVar m) (ALit k)) st') = RVal v /\
+  snd (step (model_impl src_flags) src_flags (OFind (AVar n) (ALit k)) st') = RVal v.
+Proof. exact (alias_update_visible src_flags). Qed.
+Print Assumptions C10_alias_update_visible.
+
+(* T10.fresh — along any sequence, the dictionaries returned by evaluations of literals (at
+   top level or inside a function called repeatedly) are pairwise distinct objects, each
+   beyond every location that existed before ... *)
+Theorem C10_fresh : forall ops (st : state dict),
+  Forall (fun l => (length (heap st) <= l)%nat) (fresh_locs (model_impl src_flags) src_flags ops st) /\
+  NoDup (fresh_locs (model_impl src_flags) src_flags ops st).
+Proof.
+  exact (fun ops st => fresh_locs_bound (model_impl src_flags) src_flags ops st (eq_refl : literal_deepcopy = true)).
+Qed.
+Print Assumptions C10_fresh.
+
+(* ... and no operation changes any dictionary other than its own target, nor removes one. *)
+Theorem C10_frame : forall o (st : state dict),
+  (length (heap st) <= length (heap (fst (step (model_impl src_flags) src_flags o st))))%nat /\
+  (forall i, (i < length (heap st))%nat -> target o st <> Some i ->
+     nth_error (heap (fst (step (model_impl src_flags) src_flags o st))) i = nth_error (heap st) i).
+Proof. exact (step_len_frame (model_impl src_flags) src_flags). Qed.
+Print Assumptions C10_frame.
+
+(* T10.each — in every dictionary reachable by any sequence, f'd hands f one tuple per
+   stored entry, and every key class has exactly one entry (none when absent), whose
+   payload is the one a lookup returns. *)
+Theorem C10_each : forall ops,
+  Forall (fun d => forall k c, norm k = Some c ->
+     di_visits (model_impl src_flags) d = map (fun kv => mkpair (fst kv) (snd kv)) d /\
+     length (filter (fun kv => keq src_flags (fst kv) k) d) = (match d_get src_flags d k with Some _ => 1 | None => 0 end)%nat /\
+     (forall v, d_get src_flags d k = Some v -> exists k', In (k', v) d /\ keq src_flags k' k = true))
+  (heap (fst (model_run src_flags ops))).
+Proof.
+  exact (fun ops => Forall_impl _
+     (fun d (H : exists m, dict_ref d m) k c Hk =>
+        match H with ex_intro _ m Hm =>
+          each_once src_flags d m k c (conj (eq_refl : kgsym_eq_guard = true) (eq_refl : kgchar_eq_guard = true)) Hm Hk end)
+     (reachable_ref src_flags ops (eq_refl : kgsym_eq_guard = true) (eq_refl : kgchar_eq_guard = true) (eq_refl : literal_deepcopy = true))).
+Qed.
+Print Assumptions C10_each.
+
+(* The behaviour before the fix of KGChar.__eq__ (a stored character key answers the lookup
+   of the symbol of the same text, not the other way round) is not a finite map: *)
+Definition w_charsym : list op :=
+  [OLit 0 0 []; OJoinL (AVar 0) (ALit (VList [VChar 97; VInt 1])); OFind (AVar 0) (ALit (VSym [97]))].
+
+Theorem C10_refuted_without_char_guard :
+  ~ Forall2 obs_ref (snd (model_run (mkFlags true false true) w_charsym)) (snd (spec_run w_charsym)).
+Proof.
+  intro H. vm_compute in H.
+  inversion H as [|? ? ? ? _ H1]; subst. inversion H1 as [|? ? ? ? _ H2]; subst.
+  inversion H2 as [|? ? ? ? H3 _]; subst. discriminate H3.
+Qed.
+
+(* Without the deep copy at evaluation time a literal inside a function called twice yields
+   one shared dictionary: *)
+Definition w_shared : list op :=
+  [ODefFn 10 0 [VList [VInt 1; VInt 2]]; OCall 0 10; OCall 1 10;
+   OJoinL (AVar 0) (ALit (VList [VInt 1; VInt 9])); OFind (AVar 1) (ALit (VInt 1))].
+
+Theorem C10_refuted_without_deepcopy :
+  ~ Forall2 obs_ref (snd (model_run (mkFlags true true false) w_shared)) (snd (spec_run w_shared)).
+Proof.
+  intro H. vm_compute in H.
+  inversion H as [|? ? ? ? _ H1]; subst. inversion H1 as [|? ? ? ? _ H2]; subst.
+  inversion H2 as [|? ? ? ? H3 _]; subst. discriminate H3.
+Qed.
+
+(* Non-vacuity: a concrete history (overwrite through an equal key of another kind, alias,
+   remove, literal in a function called twice) and what the model answers. *)
+Example C10_example :
+  snd (model_run src_flags
+    [OLit 0 0 [VList [VInt 1; VStr [120]]];
+     OJoinL (AVar 0) (ALit (VList [VReal 1 0; VStr [121]]));
+     OSize (AVar 0);
+     OAlias 1 0;
+     ODrop (ALit (VInt 1)) (AVar 1);
+     OFind (AVar 0) (ALit (VReal 1 0));
+     ODefFn 10 1 [VList [VChar 97; VInt 2]];
+     OCall 2 10; OCall 3 10;
+     OJoinR (ALit (VList [VStr [97]; VInt 5])) (AVar 2);
+     OFind (AVar 3) (ALit (VChar 97));
+     OEach (AVar 2)])
+  = [RVal (VRef 0); RVal (VRef 0); RVal (VInt 1); RVal (VRef 0); RVal (VRef 0); RVal VUndef;
+     RVal (VFn 1); RVal (VRef 1); RVal (VRef 2); RVal (VRef 1); RVal (VInt 2);
+     RVisits [VList [VChar 97; VInt 5]]].
+Proof. vm_compute. reflexivity. Qed.
